@@ -14,6 +14,9 @@ TV : the real gsm48_decode_mobile_alloc() sliced from the working-tree
      log lines validated as runs of the Algorithm (spec/MobAllocTrace.tla).
 GEN: spec/MobAllocGen.tla enumerates a complete boundary universe with
      Decode's answers; every case is replayed into the real function.
+SI : the callers inside sysinfo.c (which cell allocation / which IE octets
+     reach the decoder, and when): spec/SysinfoMA.tla (+MC, +Trace),
+     harness/c/drv_sysinfo_ma.c - see "SI1 / SI4 callers" below.
 """
 import json
 import os
@@ -52,6 +55,35 @@ def build(ctx):
     exe = s + "/drv_moballoc"
     cbuild.cc(exe, [s + "/moballoc_slice.c", cbuild.HC + "/drv_moballoc.c"],
               includes=[s, cbuild.LIBOSMO + "/include"], extra=["-fsanitize-recover=vla-bound"])
+    return exe
+
+
+# ------------------------------------------------------------------ build (SI1 / SI4 callers)
+SI_SLICES = [r"^int gsm48_decode_chan_h0\s*\(", r"^int gsm48_decode_chan_h1\s*\(",
+             r"^static int decode_freq_list\s*\(", r"^static int gsm48_decode_cell_sel_param\s*\(",
+             r"^int gsm48_decode_mobile_alloc\s*\(", r"^static int gsm48_decode_rach_ctl_param\s*\(",
+             r"^int gsm48_decode_sysinfo1\s*\(", r"^int gsm48_decode_sysinfo4\s*\("]
+
+
+def build_si(ctx):
+    """drv_sysinfo_ma: the real SI1 / SI4 handlers, Mobile Allocation decoder and frequency-list
+    decoder against the real struct gsm48_sysinfo (see harness/c/drv_sysinfo_ma.c)."""
+    sysinfo_c = L23 + "/src/common/sysinfo.c"
+    s = ctx.scratch
+    parts = ['#include "vf_sysinfo_ma.h"\n'
+             "/* stand-ins for what C20 does not talk about: rest octets */\n"
+             "static int gsm48_decode_si1_rest(struct gsm48_sysinfo *s, const uint8_t *si, uint8_t len) { return 0; }\n"
+             "static int gsm48_decode_si4_rest(struct gsm48_sysinfo *s, const uint8_t *si, uint8_t len) { return 0; }\n"]
+    for tab in ("gsm48_max_retrans", "gsm48_tx_integer"):
+        parts.append("/* sliced from sysinfo.c */\n" +
+                     cbuild.slice_lines(sysinfo_c, r"^static const uint8_t %s\[" % tab, r"^\};"))
+    for sig in SI_SLICES:
+        parts.append("/* sliced from sysinfo.c */\n" + cbuild.slice_function(sysinfo_c, sig) + "\n")
+    with open(s + "/sysinfo_ma_slice.c", "w") as f:
+        f.write("\n".join(parts))
+    exe = s + "/drv_sysinfo_ma"
+    cbuild.cc(exe, [s + "/sysinfo_ma_slice.c", cbuild.LIBOSMO + "/src/gsm/gsm48_ie.c", cbuild.HC + "/drv_sysinfo_ma.c"],
+              includes=[cbuild.HC + "/shim/sysinfo", L23 + "/include", cbuild.LIBOSMO + "/include"])
     return exe
 
 
@@ -380,6 +412,8 @@ def selftest(ctx, traces):
 
 def run(ctx):
     exe = build(ctx)
+    si_pool = ThreadPoolExecutor(max_workers=1)          # SI1/SI4 callers stage runs beside the others
+    si_fut = si_pool.submit(lambda: si_compute(os.path.join(ctx.scratch, "si"), ctx.seed, ctx.thorough, build_si(ctx)))
     ctx.trusted += ["drv_moballoc.c (allocates exact-size buffers, prints outputs and the function's log lines)",
                     "cbuild.slice_function/slice_lines (text slicing of gsm48_decode_mobile_alloc, FREQ_TYPE_*, prototype)",
                     "LOGP shim macro -> vf_logp()", "in-repo libosmocore gsm48_ie.h (struct gsm_sysinfo_freq)",
@@ -487,3 +521,584 @@ def run(ctx):
                 "0..64 and >64, len 0..9 and a few longer, bitmaps random/all-ones/single-bit/beyond-CA/edge); executed by "
                 "the sliced real function under ASan+UBSan; non-trivial = non-empty CA and at least one bit set in an "
                 "accepted bitmap; distinct by (CA, bitmap, si4)")
+    si_fold(ctx, si_fut.result())
+    si_pool.shutdown()
+
+
+# ====================================================================== SI1 / SI4 callers
+"""Stage `si` - the callers of gsm48_decode_mobile_alloc() inside sysinfo.c.
+
+MC : spec/SysinfoMA.tla (MC_SysinfoMA.cfg; thorough also MC_SysinfoMAFull.cfg): property view
+     (cell allocation of the last SI1, bitmap of the last SI4 that carried a usable one, hopping
+     list) + the mechanism of sysinfo.c (s->si4, stored SI4 re-decoded from SI1) over all
+     sequences; MC_SysinfoMABad.cfg (SI1 does not re-apply the stored SI4) must violate HopIsDecode.
+TV : harness/c/drv_sysinfo_ma.c runs the real gsm48_decode_sysinfo1/4 + decoder + frequency-list
+     decoder on a real struct gsm48_sysinfo, messages in exactly sized heap buffers; every op is
+     an event of spec/SysinfoMATrace.tla, which parses the SI4 octets itself and takes the cell
+     allocation from what the code reports after SI1.
+"""
+SI_FIXED = 13
+SI_FINDING_995 = "C20/si4/memory/ie-header-truncated"
+
+
+class _SiRng:
+    """Own generator: the random stream of the existing stages stays what it was."""
+    def __init__(self, seed):
+        import random
+        self.r = random.Random((seed * 2654435761 + 20) & 0xffffffff)
+
+
+# ---- encoders (not trusted for the verdict: the trace spec reads the code's SERV set and parses SI4 itself)
+def ccd_bitmap0(arfcns):
+    cd = [0] * 16
+    for a in arfcns:
+        assert 1 <= a <= 124
+        cd[15 - ((a - 1) >> 3)] |= 1 << ((a - 1) & 7)
+    return cd
+
+
+def ccd_varbitmap(orig, rels):
+    cd = [0] * 16
+    cd[0] = 0x8e | ((orig >> 9) & 1)
+    cd[1] = (orig >> 1) & 0xff
+    cd[2] = (orig & 1) << 7
+    for i in rels:
+        assert 1 <= i <= 111
+        cd[2 + (i >> 3)] |= 0x80 >> (i & 7)
+    return cd
+
+
+def si_make_ccd(rng, size=None):
+    """A Cell Channel Description (16 octets) and its format name."""
+    r = rng.random()
+    if size is None:
+        q = rng.random()
+        size = (rng.choice([1, 2, 7, 8, 9, 16, 17, 33, 63, 64]) if q < 0.35 else
+                rng.choice([65, 66, 80, 100, 112]) if q < 0.45 else rng.randint(1, 64))
+    if r < 0.35:
+        n = min(size, 124)
+        if rng.random() < 0.3:
+            a = rng.randint(1, 124 - n + 1)
+            return ccd_bitmap0(range(a, a + n)), "bitmap0"
+        return ccd_bitmap0(rng.sample(range(1, 125), n)), "bitmap0"
+    if r < 0.80:
+        n = min(size, 112) - 1
+        q = rng.random()
+        if q < 0.35:
+            orig = rng.choice([0, 0, 1023, 1022, 1000, 960, 913, 912])      # ARFCN 0 inside / wrap over 1023 -> 0
+        elif q < 0.5:
+            orig = rng.randint(900, 1023)
+        else:
+            orig = rng.randint(0, 1023)
+        rels = rng.sample(range(1, 112), n)
+        if orig and rng.random() < 0.4 and 1 <= 1024 - orig <= 111 and (1024 - orig) not in rels and rels:
+            rels[0] = 1024 - orig                                          # make ARFCN 0 a member
+        return ccd_varbitmap(orig, rels), "variable"
+    fmt = rng.choice([(0x80, 0x08, "range1024"), (0x88, 0x00, "range512"), (0x8a, 0x00, "range256"),
+                      (0x8c, 0x00, "range128")])
+    cd = [rng.randint(0, 255) if rng.random() < 0.8 else 0 for _ in range(16)]
+    if fmt[2] == "range1024":
+        cd[0] = 0x80 | (cd[0] & 0x37)                                      # 10..0XX. ; bit 2 = F0
+    else:
+        cd[0] = fmt[0] | (cd[0] & 0x31)
+    return cd, fmt[2]
+
+
+def si1_msg(rng, cd):
+    m = [0x55, 0x06, 0x19] + list(cd) + [rng.randint(0, 255) for _ in range(3)]
+    if rng.random() < 0.7:
+        m.append(rng.choice([0x2b, 0x2b, 0xab, 0x00, 0xff]))               # SI1 rest octet
+    return m
+
+
+def si4_fixed(rng):
+    return [0x31, 0x06, 0x1c] + [rng.randint(0, 255) for _ in range(10)]
+
+
+def si4_cd(rng, hop=None):
+    if hop is None:
+        hop = rng.random() < 0.6
+    o3 = (rng.randint(0, 7) << 5) | (0x10 if hop else 0) | rng.randint(0, 15 if hop else 3)
+    return [0x64, rng.choice([0x20, 0x28, 0x40 | rng.randint(0, 7)]) | rng.randint(0, 7), o3, rng.randint(0, 255)]
+
+
+def si4_msg(rng, cd, ie, pad=None):
+    """cd: None | 4 octets; ie: None | (announced length, bitmap octets present).  pad: None (message ends
+    there) or total length to pad to with rest octets (only used when the IE is complete or absent)."""
+    m = si4_fixed(rng) + (list(cd) if cd else [])
+    if ie is not None:
+        m += [0x72, ie[0] & 0xff] + list(ie[1])
+    if pad is not None and len(m) < pad:
+        first = rng.choice([0x2b, 0x2b, 0x2b, 0xab, 0x00, 0xff, 0x64, 0x72]) if ie is not None else \
+            rng.choice([0x2b, 0x2b, 0xab, 0x00, 0xff, 0x2b])
+        m += [first] + [0x2b] * (pad - len(m) - 1)
+    return m
+
+
+def si_parse_kind(m):
+    """Mirror of SysinfoMATrace!ParseSI4 - used ONLY to route inputs into batches and to name
+    discriminators, never for a verdict."""
+    n = len(m)
+    p = SI_FIXED
+    if n > p and m[p] == 0x64:
+        if n < p + 4:
+            return "trunc-cd", None
+        p += 4
+    if not (n > p and m[p] == 0x72):
+        return "noie", None
+    if n < p + 2:
+        return "trunc-hdr", None
+    ln = m[p + 1]
+    if n < p + 2 + ln:
+        return "trunc-ie", None
+    return ("overlong" if ln > 8 else "ma"), m[p + 2:p + 2 + ln]
+
+
+def si_rand_ie(rng, nca=None, length=None):
+    if length is None:
+        length = rng.choice([0, 1, 1, 2, 2, 3, 4, 5, 6, 7, 8, 8])
+    nca = nca if nca is not None else rng.randint(1, 64)
+    return (length, make_bitmap(rng, length, rng.choice(STYLES), nca))
+
+
+def si_good_si4(rng, nca=None, length=None, cd=None, full=None):
+    """A complete SI4 with a usable Mobile Allocation IE."""
+    if cd is None:
+        cd = si4_cd(rng) if rng.random() < 0.5 else None
+    if cd is False:
+        cd = None
+    maxlen = 23 - SI_FIXED - 2 - (4 if cd else 0)
+    if length is None:
+        length = rng.randint(0, maxlen) if rng.random() < 0.7 else maxlen
+    if length > maxlen:                      # does not fit into 23 octets with a channel description
+        cd = None
+    ie = si_rand_ie(rng, nca, length)
+    if full is None:
+        full = rng.random() < 0.6
+    return si4_msg(rng, cd, ie, 23 if full else None)
+
+
+def si_noie_si4(rng):
+    cd = si4_cd(rng) if rng.random() < 0.5 else None
+    return si4_msg(rng, cd, None, rng.choice([None, 23, 23]))
+
+
+def si_refused_si4(rng, full=True):
+    """IE announcing more octets than the message carries."""
+    cd = si4_cd(rng) if rng.random() < 0.5 else None
+    room = 23 - SI_FIXED - 2 - (4 if cd else 0)
+    if full:
+        have = room
+        ann = rng.randint(room + 1, min(255, room + rng.choice([1, 2, 3, 9, 200])))
+    else:
+        have = rng.randint(0, room - 1)
+        ann = have + rng.choice([1, 1, 2, 2, 3, 5])
+    return si4_msg(rng, cd, (ann, [rng.randint(0, 255) for _ in range(have)]), None)
+
+
+def si_cells(rng, thorough):
+    """Cells: lists of ('SI1'|'SI4', octets) with an order label."""
+    cells = []
+
+    def ca_pair():
+        a, fa = si_make_ccd(rng)
+        b, fb = si_make_ccd(rng)
+        if rng.random() < 0.25:                       # same format, one channel more / fewer
+            b = list(a)
+            if fa == "bitmap0":
+                b[15 - rng.randint(0, 14)] ^= 1 << rng.randint(0, 7)
+            elif fa == "variable":
+                b[3 + rng.randint(0, 12)] ^= 1 << rng.randint(0, 7)
+            else:
+                b[rng.randint(2, 15)] ^= 1 << rng.randint(0, 7)
+        return a, b
+
+    def add(order, ops):
+        cells.append(dict(order=order, ops=ops))
+
+    n = 200 if thorough else 24
+    for _ in range(n):
+        a, b = ca_pair()
+        g = lambda **kw: si_good_si4(rng, **kw)
+        add("SI1-SI4", [("SI1", si1_msg(rng, a)), ("SI4", g())])
+        add("SI4-SI1", [("SI4", g()), ("SI1", si1_msg(rng, a))])
+        add("SI1-SI4-SI1'", [("SI1", si1_msg(rng, a)), ("SI4", g()), ("SI1", si1_msg(rng, b))])
+        add("SI1-SI4-SI1'", [("SI1", si1_msg(rng, a)), ("SI4", g(length=rng.choice([1, 2, 4, 8]), cd=False)),
+                             ("SI1", si1_msg(rng, b)), ("SI1", si1_msg(rng, a)), ("SI1", si1_msg(rng, a))])
+        add("SI4-SI4'", [("SI4", g()), ("SI4", g()), ("SI1", si1_msg(rng, a))])
+        add("SI1-SI4-SI4'", [("SI1", si1_msg(rng, a)), ("SI4", g()), ("SI4", g())])
+        add("SI1-SI4-SI4'(no IE)-SI1'", [("SI1", si1_msg(rng, a)), ("SI4", g()), ("SI4", si_noie_si4(rng)),
+                                         ("SI1", si1_msg(rng, b))])
+        add("SI1-SI4-SI4'(refused)-SI1'", [("SI1", si1_msg(rng, a)), ("SI4", g()),
+                                           ("SI4", si_refused_si4(rng, full=rng.random() < 0.7)),
+                                           ("SI1", si1_msg(rng, b))])
+        add("SI4(refused)-SI1-SI4", [("SI4", si_refused_si4(rng, full=rng.random() < 0.5)), ("SI1", si1_msg(rng, a)),
+                                     ("SI4", g())])
+        add("SI1-SI4-SI4'(no IE)-SI4''-SI1'", [("SI1", si1_msg(rng, a)), ("SI4", g()), ("SI4", si_noie_si4(rng)),
+                                               ("SI4", g()), ("SI1", si1_msg(rng, b))])
+    # every Mobile Allocation length 0..9 (9: announced only, cannot fit into 23 octets), with / without
+    # channel description (h0 / h1), before and after SI1
+    for length in range(0, 10):
+        for cdk in (None, False, True):
+            a, b = ca_pair()
+            cd = None if cdk is None else si4_cd(rng, hop=cdk)
+            room = 23 - SI_FIXED - 2 - (4 if cd else 0)
+            have = min(length, room)
+            ie = (length, make_bitmap(rng, have, rng.choice(["ones", "random", "edge"]), 8 * have))
+            m = si4_msg(rng, cd, ie, 23 if have == length else None)
+            add("len%d" % length, [("SI1", si1_msg(rng, a)), ("SI4", m), ("SI1", si1_msg(rng, b))])
+            add("len%d" % length, [("SI4", m), ("SI1", si1_msg(rng, a))])
+    # all truncation points: every prefix from the fixed part to the full message
+    for k in range(30 if thorough else 4):
+        a, b = ca_pair()
+        full = si_good_si4(rng, length=rng.choice([1, 2, 3, 4]) if k % 2 else rng.choice([5, 6, 7, 8]),
+                           cd=None if k % 2 else False, full=True)
+        for n_ in range(SI_FIXED, len(full) + 1):
+            pre = full[:n_]
+            r = k + n_
+            if r % 3 == 0:
+                add("prefix", [("SI1", si1_msg(rng, a)), ("SI4", pre)])
+            elif r % 3 == 1:
+                add("prefix", [("SI1", si1_msg(rng, a)), ("SI4", si_good_si4(rng)), ("SI4", pre)])
+            else:
+                add("prefix", [("SI4", pre), ("SI1", si1_msg(rng, a))])
+    # over-long IE that fits: only possible in messages longer than any BCCH block (24+ octets)
+    for length in ((9, 10, 12, 16, 40) if thorough else (9, 12)):
+        a, _ = ca_pair()
+        m = si4_msg(rng, None, (length, [rng.randint(0, 255) for _ in range(length)]), None)
+        add("overlong", [("SI1", si1_msg(rng, a)), ("SI4", si_good_si4(rng)), ("SI4", m)])
+        add("overlong", [("SI4", m), ("SI1", si1_msg(rng, a))])
+    # random mixes
+    for _ in range(2500 if thorough else 100):
+        a, b = ca_pair()
+        ops = []
+        for _k in range(rng.randint(2, 7)):
+            q = rng.random()
+            if q < 0.4:
+                ops.append(("SI1", si1_msg(rng, rng.choice([a, a, b]))))
+            elif q < 0.8:
+                ops.append(("SI4", si_good_si4(rng)))
+            elif q < 0.9:
+                ops.append(("SI4", si_noie_si4(rng)))
+            else:
+                ops.append(("SI4", si_refused_si4(rng, full=rng.random() < 0.6)))
+        add("random", ops)
+    return cells
+
+
+def si_hdr_cells(rng, thorough):
+    """The input class of sysinfo.c:995: the message ends right after the IEI 0x72."""
+    cells = []
+    for k in range(8 if thorough else 4):
+        a, _ = si_make_ccd(rng)
+        cd = si4_cd(rng) if k & 1 else None
+        m = si4_msg(rng, cd, None, None) + [0x72]
+        if k & 2:
+            cells.append(dict(order="hdr", ops=[("SI1", si1_msg(rng, a)), ("SI4", si_good_si4(rng)), ("SI4", m)]))
+        else:
+            cells.append(dict(order="hdr", ops=[("SI4", m), ("SI1", si1_msg(rng, a))]))
+    return cells
+
+
+def si_line(op):
+    return "%s %s" % (op[0], bytes(op[1]).hex())
+
+
+def si_run_cells(exe, cells, max_crashes=MAX_CRASHES, class_crashes=CLASS_CRASHES):
+    """Run cells (each: N + its ops) through driver processes.  Fills cell['ev'] (events) or
+    cell['crash'] = dict(kind, op, stderr); cells not executed because the crash budget of their
+    class ran out keep neither."""
+    pending = list(range(len(cells)))
+    total = 0
+    by_class = {}
+
+    def cls(c):
+        return "+".join(sorted(set(si_parse_kind(o[1])[0] for o in c["ops"] if o[0] == "SI4")))
+
+    while pending and total < max_crashes:
+        idxs = [k for k in pending if by_class.get(cls(cells[k]), 0) < class_crashes]
+        if not idxs:
+            break
+        script = []
+        owner = []
+        for k in idxs:
+            script.append("N")
+            owner.append((k, -1))
+            for j, op in enumerate(cells[k]["ops"]):
+                script.append(si_line(op))
+                owner.append((k, j))
+        rc, out, err = cbuild.run_driver(exe, "\n".join(script) + "\n", timeout=1200)
+        lines = out.splitlines()
+        got = 0
+        for ln in lines:
+            try:
+                r = json.loads(ln)
+            except ValueError:
+                break
+            if "error" in r:
+                raise tlc.MachineryError("drv_sysinfo_ma: %s" % r["error"])
+            k, j = owner[got]
+            if j < 0:
+                cells[k]["ev"] = [dict(e="new")]
+            else:
+                ev = dict(e=r["e"], rc=r["rc"], serv=r["serv"], hoppMask=r["hoppMask"], hoppLen=r["hoppLen"],
+                          hopping=r["hopping"])
+                if r["e"] == "si4":
+                    ev["msg"] = list(cells[k]["ops"][j][1])
+                    ev["len"] = r["len"]
+                cells[k]["ev"].append(ev)
+                cells[k]["flags"] = (r["si1"], r["si4"])
+            got += 1
+        if got == len(owner):
+            break
+        if rc == 0:
+            raise tlc.MachineryError("drv_sysinfo_ma stopped after %d of %d ops without a crash:\n%s"
+                                     % (got, len(owner), err[-1500:]))
+        k, j = owner[got]
+        tail = err[-4000:]
+        cells[k].pop("ev", None)
+        cells[k]["crash"] = dict(kind=mem_kind(rc, tail), op=max(j, 0), rc=rc, stderr=tail)
+        by_class[cls(cells[k])] = by_class.get(cls(cells[k]), 0) + 1
+        total += 1
+        pending = idxs[idxs.index(k) + 1:]
+    return cells
+
+
+def si_shape(cell, upto):
+    """Discriminator: what the ops of the cell were, up to and including op `upto`."""
+    names = []
+    for op in cell["ops"][:upto + 1]:
+        names.append("si1" if op[0] == "SI1" else si_parse_kind(op[1])[0])
+    return "-".join(names[-3:])
+
+
+def si_validate(scratch, traces, out, parallel):
+    """TV of traces {id, ev, where} (where[k] = (cell, op index) of event k); the remainder of a
+    rejected trace is re-submitted from the next cell on."""
+    rounds = 0
+    nev = 0
+    while traces and rounds < 6:
+        rounds += 1
+        send = [dict(id=t["id"], cfg={}, ev=t["ev"]) for t in traces]
+        res, stats = tlc.validate_traces("SysinfoMATrace.tla", "SysinfoMATrace.cfg", send, scratch=scratch,
+                                         chunk="balance", parallel=parallel, timeout=3000)
+        out["tv"].append(("TV SysinfoMATrace%s" % ("" if rounds == 1 else " (remainder %d)" % rounds), stats, len(traces)))
+        byid = {t["id"]: t for t in traces}
+        nxt = []
+        for v in res:
+            tr = byid[v["id"]]
+            nev += v["reached"]
+            if v["reached"] == v["n"]:
+                continue
+            tag = (v["tag"] or "no-action-enabled").replace("C20.", "")
+            bad = tr["ev"][v["reached"]]
+            cell, j = tr["where"][v["reached"]]
+            prev = tr["ev"][v["reached"] - 1] if v["reached"] else {}
+            out["violations"].append((
+                "C20/%s/%s" % (tag, si_shape(cell, j)),
+                "SI1/SI4 sequence (%s) rejected at op %d (%s): rc=%s serv=%s.. hopp_len=%s hopping=%s HOPP marks=%s "
+                "[list before: %s]"
+                % (cell["order"], j + 1, tag, bad.get("rc"), str(bad.get("serv", []))[:60], bad.get("hoppLen"),
+                   str(bad.get("hopping", []))[:80], str(bad.get("hoppMask", []))[:60], str(prev.get("hopping"))[:60]),
+                dict(order=cell["order"], driver_script=["N"] + [si_line(o) for o in cell["ops"]], failing_op=j + 1,
+                     event=bad, previous_event=prev, verdict=v)))
+            k = v["reached"] + 1
+            while k < len(tr["ev"]) and tr["ev"][k]["e"] != "new":
+                k += 1
+            if k < len(tr["ev"]):
+                nxt.append(dict(id=tr["id"] + "+", ev=tr["ev"][k:], where=tr["where"][k:]))
+        traces = nxt
+    return nev
+
+
+def si_selftest(scratch, traces, out):
+    """Binding self-test: corrupted observations must be rejected at that event with the expected tag."""
+    import copy
+    jobs = []
+    want = {"swap": None, "outside": None, "rc": None, "stale": None}
+    for t in traces:
+        ev = t["ev"]
+        for k, e in enumerate(ev):
+            if e["e"] == "new":
+                continue
+            kind = si_parse_kind(e["msg"])[0] if e["e"] == "si4" else "si1"
+            after = "si4" if e["e"] == "si4" else "si1"
+            if want["swap"] is None and kind in ("ma", "si1") and e["hoppLen"] >= 2 and e["hopping"][0] != e["hopping"][1]:
+                c = copy.deepcopy(ev[:k + 2])
+                c[k]["hopping"][0], c[k]["hopping"][1] = c[k]["hopping"][1], c[k]["hopping"][0]
+                want["swap"] = (dict(id="st-swap", cfg={}, ev=c), k, "C20.si.hopping-after-" + after)
+            if want["outside"] is None and kind == "ma" and e["hoppLen"] >= 1 and e["serv"]:
+                out_a = next(a for a in range(1, 1024) if a not in e["serv"])
+                c = copy.deepcopy(ev[:k + 2])
+                c[k]["hopping"][-1] = out_a
+                want["outside"] = (dict(id="st-outside", cfg={}, ev=c), k, "C20.si.outside-cell-allocation")
+            if want["rc"] is None and kind == "trunc-ie" and e["rc"] < 0:
+                c = copy.deepcopy(ev[:k + 2])
+                c[k]["rc"] = 0
+                want["rc"] = (dict(id="st-rc", cfg={}, ev=c), k, "C20.si.truncated-ie-refused")
+            if (want["stale"] is None and kind == "si1" and k >= 2 and ev[k - 1]["e"] == "si4" and ev[k - 2]["e"] == "si1"
+                    and si_parse_kind(ev[k - 1]["msg"])[0] == "ma" and e["hopping"] != ev[k - 1]["hopping"]):
+                c = copy.deepcopy(ev[:k + 2])             # what change 1 looks like: list and marks of the old CA kept
+                c[k]["hopping"] = list(ev[k - 1]["hopping"])
+                c[k]["hoppLen"] = ev[k - 1]["hoppLen"]
+                c[k]["hoppMask"] = list(ev[k - 1]["hoppMask"])
+                want["stale"] = (dict(id="st-stale", cfg={}, ev=c), k, "C20.si.")
+    jobs = [w for w in want.values() if w is not None]
+    if len(jobs) < 4:
+        raise tlc.MachineryError("si self-test: no suitable accepted traces to corrupt (%s)"
+                                 % [k for k, w in want.items() if w is None])
+    res, stats = tlc.validate_traces("SysinfoMATrace.tla", "SysinfoMATrace.cfg", [j[0] for j in jobs], scratch=scratch)
+    out["jobs"].append(dict(job="si self-test: corrupted observations must be rejected at the corrupted event", **stats))
+    verdict = {v["id"]: v for v in res}
+    for tr, k, tag in jobs:
+        v = verdict[tr["id"]]
+        if v["reached"] != k or not v["tag"].startswith(tag):
+            raise tlc.MachineryError("si self-test %s: expected rejection at event %d with %s, got %s" % (tr["id"], k + 1, tag, v))
+    out["extra"]["si_selftest_corruptions_rejected"] = len(jobs)
+
+
+def si_compute(scratch, seed, thorough, exe):
+    """Everything of the stage that does not touch ctx (runs beside the other stages)."""
+    os.makedirs(scratch, exist_ok=True)
+    rng = _SiRng(seed).r
+    out = dict(tlc=[], tv=[], jobs=[], violations=[], extra={}, logs=[], count=0, distinct=[], samples=[])
+    with ThreadPoolExecutor(max_workers=3) as ex:
+        f_mc = ex.submit(tlc.run, "SysinfoMAMC.tla", "MC_SysinfoMAFull.cfg" if thorough else "MC_SysinfoMA.cfg",
+                         workers=4 if thorough else 2, timeout=1800, coverage=thorough)
+        f_bad = ex.submit(tlc.run, "SysinfoMAMC.tla", "MC_SysinfoMABad.cfg", workers=1, timeout=600)
+        # ---- drive the real code
+        cells = si_run_cells(exe, si_cells(rng, thorough))
+        hdr = si_run_cells(exe, si_hdr_cells(rng, thorough), max_crashes=8, class_crashes=8)
+        r, rb = f_mc.result(), f_bad.result()
+    out["tlc"].append(("MC %s (SI1/SI4 sequences of any length: %s)"
+                       % (("MC_SysinfoMAFull.cfg", "ARFCN 0..4, bitmaps of 0..2 three-bit octets + over-long")
+                          if thorough else ("MC_SysinfoMA.cfg", "ARFCN 0..3, bitmaps of 0..2 two-bit octets + over-long")), r))
+    out["logs"].append("MC SysinfoMA %s" % r.summary())
+    if not r.ok:
+        out["violations"].append(("C20/spec/si/%s" % r.violation["name"],
+                                  "TLC: %s violated in SysinfoMA" % r.violation["name"],
+                                  dict(trace=r.violation.get("trace", "")[-6000:], cmd=r.cmd)))
+    elif thorough:
+        for act in ("RxSI1", "RxSI4"):
+            if act in r.coverage and r.coverage[act][1] == 0:
+                raise tlc.MachineryError("MC_SysinfoMA: action %s never taken (vacuous model)" % act)
+    out["jobs"].append(dict(job="MC MC_SysinfoMABad.cfg (sensitivity: an SI1 that does not re-apply the stored SI4 "
+                                "must violate HopIsDecode)", **rb.summary()))
+    if rb.ok or rb.violation["name"] != "HopIsDecode":
+        raise tlc.MachineryError("sensitivity run MC_SysinfoMABad.cfg: expected HopIsDecode to be violated, got %s"
+                                 % (rb.violation,))
+    # ---- memory verdicts
+    orders, kinds, fmts = {}, {}, {}
+    skipped = 0
+    okc = []
+    for c in cells + hdr:
+        out["count"] += len(c["ops"])
+        orders[c["order"]] = orders.get(c["order"], 0) + 1
+        for op in c["ops"]:
+            if op[0] == "SI4":
+                kd = si_parse_kind(op[1])[0]
+                kinds[kd] = kinds.get(kd, 0) + 1
+        if "crash" in c:
+            cr = c["crash"]
+            op = c["ops"][cr["op"]]
+            kd = si_parse_kind(op[1])[0] if op[0] == "SI4" else "si1"
+            if op[0] == "SI1" and "gsm48_decode_freq_list" in cr["stderr"] and \
+                    not re.search(r"gsm48_decode_(mobile_alloc|sysinfo4)", cr["stderr"]):
+                # decoding of the Cell Channel Description itself is not C20's subject
+                out["extra"]["si_out_of_scope_reports"] = out["extra"].get("si_out_of_scope_reports", 0) + 1
+                out["logs"].append("si: sanitizer report inside gsm48_decode_freq_list (not C20): SI1 %s" % bytes(op[1]).hex())
+                continue
+            if op[0] == "SI4" and kd == "trunc-hdr" and cr["kind"] == "asan-heap-buffer-overflow":
+                sig = SI_FINDING_995
+            elif op[0] == "SI4":
+                sig = "C20/si4/memory/%s/%s" % (cr["kind"], kd)
+            else:
+                sig = "C20/si1/memory/%s/%s" % (cr["kind"], si_shape(c, cr["op"] - 1) if cr["op"] else "first")
+            out["violations"].append((
+                sig, "%s handler killed by the sanitizer (%s) at op %d of sequence %s: %s (%d octets, %s)"
+                % (op[0], cr["kind"], cr["op"] + 1, c["order"], bytes(op[1]).hex(), len(op[1]), kd),
+                dict(order=c["order"], driver_script=["N"] + [si_line(o) for o in c["ops"]], failing_op=cr["op"] + 1,
+                     stderr=cr["stderr"])))
+        elif "ev" in c and len(c["ev"]) == len(c["ops"]) + 1:
+            okc.append(c)
+        else:
+            skipped += 1
+    if skipped:
+        out["logs"].append("si: %d cells not executed (their input class already killed the driver)" % skipped)
+        out["extra"]["si_cells_skipped_after_crashes"] = skipped
+    # ---- TV
+    traces = []
+    per = 10
+    for k in range(0, len(okc), per):
+        ev, where = [], []
+        for c in okc[k:k + per]:
+            for j, e in enumerate(c["ev"]):
+                ev.append(e)
+                where.append((c, j - 1))
+        traces.append(dict(id="si%d" % (k // per), ev=ev, where=where))
+    nviol = len(out["violations"])
+    nev = si_validate(scratch, traces, out, parallel=4 if thorough else 2)
+    if thorough and len(out["violations"]) == nviol:
+        si_selftest(scratch, traces, out)
+    # ---- evidence
+    big = nonempty = with0 = 0
+    for c in okc:
+        last_live = None
+        for e in c["ev"][1:]:
+            if e["e"] == "si1":
+                big += len(e["serv"]) > 64
+                with0 += bool(e["serv"]) and e["serv"][0] == 0
+            if e["hoppLen"]:
+                nonempty += 1
+                last_live = e
+        if last_live is not None:
+            out["distinct"].append((tuple(last_live["serv"]), tuple(last_live["hopping"]), c["order"]))
+    for c in okc[:1]:
+        out["samples"].append(dict(stage="si", order=c["order"], script=["N"] + [si_line(o) for o in c["ops"]],
+                                   last=dict((k, c["ev"][-1][k]) for k in ("rc", "hoppLen", "hopping"))))
+    if okc and not nonempty and not out["violations"]:
+        raise tlc.MachineryError("si stage: no sequence produced a non-empty hopping list (vacuous)")
+    out["extra"].update(si_cells=len(cells) + len(hdr), si_messages=out["count"], si_events_validated=nev,
+                        si_orders=orders, si_si4_kinds=kinds, si_cell_allocations_gt64=big,
+                        si_cell_allocations_with_arfcn0=with0, si_events_with_nonempty_list=nonempty)
+    out["logs"].append("si: %d cells / %d messages driven, %d events validated, %d violation(s)"
+                       % (len(cells) + len(hdr), out["count"], nev, len(out["violations"])))
+    return out
+
+
+def si_fold(ctx, out):
+    """Apply the stage's results to ctx (main thread)."""
+    # SI_FINDING_995: until fix 4420c23 sysinfo.c:995 read data[1] of a message ending right after the IEI
+    # 0x72 (one octet past the message); the input class keeps its own signature so that a regression
+    # is recognised; nothing is suppressed here.
+    for label, r in out["tlc"]:
+        ctx.add_tlc(label, r)
+    for label, stats, n in out["tv"]:
+        ctx.add_tv(label, stats, n)
+    ctx.jobs.extend(out["jobs"])
+    for ln in out["logs"]:
+        ctx.log(ln)
+    for sig, what, replay in out["violations"]:
+        ctx.violation(sig, what, replay)
+    ctx.count(out["count"])
+    for key in out["distinct"]:
+        ctx.distinct(("si",) + key)
+    for smp in out["samples"]:
+        ctx.sample(smp, limit=5)
+    ctx.extra.update(out["extra"])
+    ctx.trusted += ["drv_sysinfo_ma.c (exact-size message buffers, ASan-poisoned si5_msg..si13_msg, reads back "
+                    "SERV/HOPP marks, hopping[], hopp_len)",
+                    "slicing of gsm48_decode_sysinfo1/4, decode_freq_list, chan_h0/h1, cell_sel_param, rach_ctl_param; "
+                    "stand-ins for LAI / rest-octet decoding and logging (shim/sysinfo)",
+                    "in-repo libosmocore gsm48_ie.c compiled whole (gsm48_decode_freq_list), gsm_04_08.h"]
+    ctx.assumptions += ["SI1/SI4 stage: the cell allocation is what the code itself marks FREQ_TYPE_SERV after SI1; "
+                        "SI1 messages have at least their 22-octet fixed part, SI4 at least 13 (the callers refuse shorter ones)",
+                        "SI1/SI4 stage don't-cares: the list after an SI4 without the Mobile Allocation IE, and after an SI1 "
+                        "whose most recent SI4 carried no usable bitmap (no IE / refused / over-long) - sysinfo.c keeps the "
+                        "list of the old cell allocation there; rc of gsm48_decode_sysinfo4 for an over-long IE "
+                        "(only possible in messages of 24+ octets; the decoder's -EINVAL is ignored by the handler)"]
+    ctx.rule += ("; SI1/SI4 stage: cells = fixed orders (SI1-SI4, SI4-SI1, SI1-SI4-SI1', SI4-SI4', SI1-SI4-SI4'(no IE)-SI1', "
+                 "refused SI4 in between) x cell allocations in bit map 0 / variable bit map / range formats (1..64 and >64 "
+                 "channels, with/without ARFCN 0) x Mobile Allocation IE lengths 0..9 with/without CBCH channel description "
+                 "+ every prefix of complete SI4 messages + random mixes; non-trivial = sequence ending with a non-empty "
+                 "hopping list, distinct by (cell allocation, list, order)")
